@@ -93,6 +93,26 @@ def eval_bytes(ename, data):
     return out
 
 
+def eval_lastchar_foreign(ename, prefix, ch):
+    """the padding-bit repair must not 'repair' a final character that is not in the alphabet: value error, both forms"""
+    eng, alpha, big, _ = engines()[ename]
+    out = []
+    for form, text in (("bytes", prefix + bytes([ch])), ("str", (prefix + bytes([ch])).decode("latin-1"))):
+        tail = len(text) % 4
+        for fn in ("check_repair_unused", "repair_unused"):
+            try:
+                got = getattr(eng, fn)(text)
+            except ValueError:
+                continue
+            except Exception as e:  # noqa: BLE001
+                out.append((f"C12|{ename}|repair_unused:foreign_last:tail{tail}:{form}:raises:{type(e).__name__}", f"{fn}({text!r}) raised {e!r}; a final character outside the alphabet must be refused with ValueError"))
+                break
+            else:
+                out.append((f"C12|{ename}|repair_unused:foreign_last:tail{tail}:{form}:accepted", f"{fn}({text!r}) returned {got!r}; the final character is not in the alphabet"))
+                break
+    return out
+
+
 def eval_lastchar(ename, prefix, last):
     """decode tolerates exactly the unused bits of the final character"""
     eng, alpha, big, _ = engines()[ename]
@@ -345,6 +365,7 @@ def eval_helper_bad(name, text):
 EVALS = {
     "bytes": lambda c: eval_bytes(c["engine"], c["data"]),
     "lastchar": lambda c: eval_lastchar(c["engine"], c["prefix"], c["last"]),
+    "lastchar_foreign": lambda c: eval_lastchar_foreign(c["engine"], c["prefix"], c["ch"]),
     "bad_text": lambda c: eval_bad_text(c["engine"], c["text"]),
     "int": lambda c: eval_int(c["engine"], c["bits"], c["value"]),
     "int_text": lambda c: eval_int_text(c["engine"], c["bits"], c["text"]),
@@ -411,6 +432,11 @@ def work(task):
                 for last in range(64):
                     _do(acc, {"kind": "lastchar", "engine": ename, "prefix": pre, "last": last}, (ename, "lastchar", tail, plen, last))
                     acc.axis("tail", tail)
+                if can:
+                    amap = set(alpha if isinstance(alpha, bytes) else alpha.encode("latin-1"))
+                    for ch in range(256):
+                        if ch not in amap:
+                            _do(acc, {"kind": "lastchar_foreign", "engine": ename, "prefix": pre, "ch": ch}, (ename, "lastchar_foreign", tail, plen, ch))
     elif part == "bad_text":
         eng, alpha, big, can = engines()[ename]
         good = R.encode_bytes(filler(seed, 6, b"g"), alpha, big)  # 8 chars
